@@ -16,12 +16,18 @@ CLAIMED = {
  'C07': ('exploration', 'deterministic simulation: bit-equality with the sequential single-worker run under seeded schedules, simulated worker counts, concurrently interleaved samplers and progress mode',
          'Every sampler kind (MH f32/f64/discrete, Gibbs, HMC f32/f64, NUTS f32/f64 on Gaussian and Rosenbrock targets) is built twice from the same inputs and seed and run sequentially (reference), then run() executes under 1..16 simulated pool workers with a scheduling point per transition, 2-3 samplers are interleaved per transition in one process, and run_progress runs on simulated threads/clock: all outputs must be bit-identical to the reference (NUTS progress: shifted by one). Seeds include 0, 2^32, 2^63 and u64::MAX-k; a different seed must change the output once the chain has moved; the seeded initialisers are called from several simulated threads in different orders.',
          'Trusts: shuttle; the work-claiming stub for the rayon pool (cross-checked against real pools on 1/8 of runs); MH proposals seeded by the harness (Proposal::set_seed) count as inputs; default (OS-entropy) construction is outside C07.', '3/C07'),
+ 'C08': ('exploration', 'deterministic simulation of the randomness seam: pairwise stream comparison between chains and between acceptance and proposal generators, through public generator fields, a user-defined spy proposal and the traced momenta',
+         'Multi-chain MH (library proposal and a user-defined seedable proposal with a public generator), HMC batches and NUTS are built with defaults and seeded (special seeds incl. u64::MAX-k) with 2..64 chains all at one common state; for every pair of chains the proposal noise, acceptance generator states, traced momenta / acceptance draws and trajectories must differ, and in no chain may the acceptance generator equal the proposal generator.',
+         'Trusts: SmallRng: PartialEq as the stream identity; default construction uses OS entropy (no seam): values vary, the verdict is structural (clones are equal for every entropy value).', '3/C08'),
  'C09': ('exploration', 'deterministic simulation: seeded schedules over simulated pool workers + transition-counter reference model over run() histories',
          'Seeded search over histories of run() calls on counting chains (state = chain id, transitions so far) executed by W simulated workers under random/PCT/sticky schedules with a scheduling point per transition; every returned cell, every chain counter and the state the sampler is left in are compared with the transition-counter model. Evidence, not proof: schedules and histories are sampled.',
          'Trusts: shuttle as the coroutine scheduler; the work-claiming stub standing in for rayon (cross-checked against real rayon pools on 10% of runs); NUTS/HMC own run() loops are covered by their scenarios, not by the stub chain.', '3/C09'),
  'C10': ('exploration', 'deterministic simulation with fault injection: seeded scheduler + simulated clock over the real progress protocol; receiver-drop fault enumerated over every message index',
          'The real run_progress protocol (reporter thread, per-chain channels, scoped workers) runs on simulated threads, channels and clock. Seeded random/PCT/sticky schedules, chain counts 1..48, clock regimes from frozen to one message per step, stalls of hours. Oracles: draws equal the transition-counter model, diagnostics equal RunStats::from(returned draws), no step-bound hit (hang), no deadlock, no panic, reporter exits within n_chains+5 polls after the last message; receiver dropped after j messages for every j.',
          'Trusts: shuttle; the cost model of the simulated clock (any monotone clock is legal); hang verdicts rely on fair schedulers only (random, PCT with yield on sleep, round-robin sticky).', '3/C10'),
+ 'C13': ('exploration', 'deterministic simulation: update histories against f64 batch statistics of exactly the fed prefix; snapshots taken by real progress workers under the simulated clock and seeded schedules',
+         'ChainTracker, collect_rhat and MultiChainTracker are driven by generated update histories (length 2..5000, 2..16 chains, 1..8 parameters, f64/f32/i32 states, agreeing and shifted chains, repeated states): count, mean, unbiased variance, the acceptance EMA recurrence and range are checked after every update, both R-hat figures against the classical sqrt(var+/W) at chosen prefixes. Real run_chain_progress workers on simulated threads/clock send snapshots to a stub listener: which prefix a snapshot covers is decided by the schedule and clock, and every snapshot must be the batch statistics of exactly that prefix.',
+         'Trusts: condition-aware tolerance 8*n*eps32*(1+mean^2/var); comparisons whose own bound exceeds 2% are counted, not judged.', '3/C13'),
  'C16': ('exploration', 'deterministic simulation of the generator seam: injected uniform variates (crafted generator states) incl. the complete f32 variate space; reference inverse CDF with zero-probability exclusion',
          'Categorical::new / logp / sample run for real; the private OS-seeded generator is replaced (verification-only constructor) by a crafted state whose next output is chosen. Per weight vector (length 1..64, zeros anywhere, unnormalised): normalisation, bitwise logp, and sample() for the variates 0, 1 ulp, 1-ulp, the representable values around every cumulative boundary and random ones; for f32 vectors the complete space of 2^24 variates is enumerated (exhaustive per vector) and exact selection frequencies are compared with the probabilities. A zero-probability category is never acceptable.',
          'Trusts: the crafted generator state (self-checked); the set of weight vectors is sampled, the variate space per f32 vector is complete.', '3/C16'),
